@@ -15,3 +15,7 @@ pub use observable::ObservableCommitment;
 pub(crate) use periodic::evaluate_periodic_columns_circuit;
 pub use quotient::recompose_quotient_from_chunks_circuit;
 pub use stark::verify_p3_uni_proof_circuit;
+#[cfg(p3_recursion_verif)]
+pub use periodic::verif_evaluate_periodic_columns_circuit;
+#[cfg(p3_recursion_verif)]
+pub use quotient::verif_vanishing_poly_at_point_circuit;
